@@ -170,6 +170,13 @@ def shards(tier):
         for p in range(parts):
             items.append({"kind": "addsweep", "day": d, "w": w, "part": p, "parts": parts})
     items.append({"kind": "refuse", "tier": tier})
+    # the same stamps under other process time zones (POSIX TZ strings, no tz database needed): the UTC views of a stamp do
+    # not depend on where the process runs.  A shard runs in its own process, so setting TZ there affects nothing else.
+    for tz in OTHER_TZ:
+        for d in EDGE_DAYS:
+            items.append({"kind": "mssweep", "day": d, "part": 0, "parts": 64, "tz": tz})
+        items.append({"kind": "fromdt", "date": 3, "tz": tz})
+        items.append({"kind": "addprod", "tz": tz})
     for k in START_KINDS:
         for d in EDGE_DAYS:
             for m in HIST_MODES:
@@ -692,9 +699,18 @@ def add_product_cases():
     return uniq
 
 
+OTHER_TZ = ("CET-1CEST,M3.5.0,M10.5.0/3", "EST5EDT,M3.2.0,M11.1.0", "NZST-12NZDT,M9.5.0,M4.1.0/3")
+
+
 def run_shard(item):
     rec = Rec(PROPERTY, item)
     kind = item["kind"]
+    if item.get("tz"):
+        import os
+        import time
+        os.environ["TZ"] = item["tz"]
+        time.tzset()
+        rec.count("shards_run_under_a_non_UTC_process_time_zone")
     keep = Keep(rec)
     if kind == "days":
         prod = set(add_product_cases())
